@@ -72,13 +72,15 @@ func init() {
 					writes = 6
 				}
 				for j := 1; j <= writes; j++ {
-					for _, short := range []bool{false, true} {
+					for vi, variant := range []string{"plain", "short", "transient"} {
+						short, once := variant == "short", variant == "transient"
 						if short && j > 2 {
 							continue
 						}
+						_ = vi
 						d := NewDrv(op, doc)
-						d.WriterFailAt, d.WriterShort = j, short
-						name := fmt.Sprintf("c14/doc%d/%s/writer@%d/short=%v", di, op, j, short)
+						d.WriterFailAt, d.WriterShort, d.WriterOnce = j, short, once
+						name := fmt.Sprintf("c14/doc%d/%s/writer@%d/%s", di, op, j, variant)
 						out = append(out, &Scenario{Name: name, Prop: "C14", Workers: w2, Bound: k, Policies: pols,
 							New: func() Exec { return &c14Exec{DrvRun: d.New(), full: full, name: name} }})
 					}
